@@ -9,6 +9,11 @@ is a utility node, agent 0 owns {0,1}, agent 1 owns {3,4}.
 import JumanjiModel.Env.MMST.Lemmas
 import JumanjiModel.Env.MMST.Bounds
 import JumanjiModel.Env.MMST.FeasibleLemmas
+import JumanjiModel.Env.MMST.Walk
+import JumanjiModel.Env.MMST.ObsLemmas
+import JumanjiModel.Env.MMST.Illegal
+import JumanjiModel.Env.MMST.Solvable
+import JumanjiModel.Env.MMST.GenTheorems
 open Jm MMST
 
 namespace Props.MMSTEx
@@ -33,6 +38,21 @@ def stB : State :=
             connectedIndex := [[0, -1, -1, -1, -1], [-1, -1, -1, -1, 4]], nodesToConnect := [[0, 1], [4, 3]],
             positions := [0, 4], actionMask := [[false, true, false, false, false], [false, false, false, true, false]] }
 def cfgG : Cfg := { cfg with guardVisited := true }
+/-- the repaired configuration (the tree as it is now: fresh mask, guarded visited lookup) -/
+def cfgR : Cfg := { cfg with guardVisited := true, freshMask := true }
+/-- the audit's counterexample to the old `Feasible`: routes `[0,4]` and `[1,3]` on the path graph (no edges 0-4, 1-3) -/
+def stJump : State :=
+  { st with nodeTypes := [0, 1, -1, 1, 0], nodesToConnect := [[0, 4], [1, 3]],
+            connectedNodes := [[0, 4, -1, -1, -1, -1], [1, 3, -1, -1, -1, -1]],
+            connectedIndex := [[0, -1, -1, -1, 4], [-1, 1, -1, 3, -1]], positions := [4, 3], positionIndex := [1, 1],
+            actionMask := [[false, false, false, false, false], [false, false, false, false, false]],
+            finished := [true, true], stepCount := 1 }
+/-- one node per agent (`num_nodes_per_agent = 1`): a reset state as the generator builds it -/
+def cfgK1 : Cfg := { cfg with numNodesPerAgent := 1 }
+def stK1 : State :=
+  { st with nodeTypes := [0, -1, -1, 1, -1], nodesToConnect := [[0], [3]] }
+/-- the graph and the draws from which the generator builds `st` -/
+def draw : GenDraw := { adj := adj, nodeEdges := edges, comps := [[0, 1], [3, 4]] }
 end Props.MMSTEx
 
 namespace Props.C04
@@ -80,6 +100,33 @@ theorems above, is re-established by `step`; rows of `nodes_to_connect` have `nu
 theorem mmst_step_flagsFresh (cfg : Cfg) (s : State) (action : List Int) (perm : List Nat)
     (hK : ∀ i, i < cfg.numAgents → (s.nodesToConnect.getD i []).length = cfg.numNodesPerAgent) :
     FlagsFresh cfg (step cfg s action perm).1 := MMST.step_flagsFresh cfg s action perm hK
+
+/-- audit r1 entry 7: `FlagsFresh` holds in every generated state when every agent has at least two nodes to connect
+(from the reset certificates: `certStart` = every agent on its first node, route otherwise empty, flags false;
+`certAgentsDisjoint` = the `num_nodes_per_agent` nodes of an agent are distinct node indices) — so with
+`mmst_step_flagsFresh` it holds along every episode -/
+theorem mmst_reset_flagsFresh (cfg : Cfg) (s : State) (hS : Shaped cfg s) (h1 : certStart cfg s = true)
+    (h4 : certAgentsDisjoint cfg s = true) (hK : 2 ≤ cfg.numNodesPerAgent) : FlagsFresh cfg s :=
+  MMST.reset_flagsFresh hS h1 h4 hK
+
+example : Shaped MMSTEx.cfg MMSTEx.st ∧ certStart MMSTEx.cfg MMSTEx.st = true ∧
+    certAgentsDisjoint MMSTEx.cfg MMSTEx.st = true ∧ 2 ≤ MMSTEx.cfg.numNodesPerAgent := by decide +kernel
+
+/-- `num_nodes_per_agent = 1` (accepted by `SplitRandomGenerator`): the reset state satisfies every certificate, each
+agent is already done (its only node is its start node) but `finished_agents` is all false: the flags are NOT
+fresh, the mask (and `step`) offer moves the rules do not allow.  The real code agrees
+(`SplitRandomGenerator(6, 7, 4, 2, 1, 5)`, `reset(PRNGKey(0))`: `get_finished_agents(state) = [True, True]`,
+`state.finished_agents = [False, False]`, FIRST timestep with a non-empty mask; the first step moves both agents,
+costs -2 and ends the episode) -/
+theorem mmst_reset_flagsFresh_k1_witness :
+    Shaped MMSTEx.cfgK1 MMSTEx.stK1 ∧ certStart MMSTEx.cfgK1 MMSTEx.stK1 = true ∧
+    certTypes MMSTEx.cfgK1 MMSTEx.stK1 = true ∧ certEdgesAdj MMSTEx.cfgK1 MMSTEx.stK1 = true ∧
+    certAgentsDisjoint MMSTEx.cfgK1 MMSTEx.stK1 = true ∧ certOwnBlock MMSTEx.cfgK1 MMSTEx.stK1 = true ∧
+    ¬ FlagsFresh MMSTEx.cfgK1 MMSTEx.stK1 ∧ agentDone MMSTEx.stK1 0 ∧
+    (MMSTEx.stK1.actionMask.getD 0 []).getD 1 false = true ∧ ¬ legal MMSTEx.cfgK1 MMSTEx.stK1 0 1 ∧
+    (step MMSTEx.cfgK1 MMSTEx.stK1 [1, 4] [0, 1]).1.positions = [1, 4] ∧
+    (step MMSTEx.cfgK1 MMSTEx.stK1 [1, 4] [0, 1]).2.reward = [-2] ∧
+    (step MMSTEx.cfgK1 MMSTEx.stK1 [1, 4] [0, 1]).2.stepType = .last := by decide +kernel
 
 /-- a legal action is carried out when no agent BEFORE agent `i` in the draw asks for the same node (agents after
 it lose the tie-break against it) and `i` occurs once in the draw `l1 ++ i :: l2` -/
@@ -150,6 +197,32 @@ theorem mmst_illegal_ignored (cfg : Cfg) (s : State) (hS : Shaped cfg s) (hE : E
     s'.connectedNodes.getD i [] = s.connectedNodes.getD i [] ∧
     s'.connectedIndex.getD i [] = s.connectedIndex.getD i [] :=
   MMST.illegal_ignored hS hE hF action perm hi ha hill
+
+/-- audit r1 entry 15, the WHOLE documented effect of a joint action in the repaired configuration
+(`guardVisited`), for every feasible state with fresh flags, every in-spec joint action and every valid draw: the
+decidable C05 predicate of the driver holds of the model's own step — every agent with an illegal action keeps
+position, route index, route and visited table; the reward is the sum of the documented per-agent rewards
+(0 for a done agent, time-step + invalid-choice penalty for an illegal action, 0 for a lost tie-break,
+connection reward for a newly connected own node, time-step penalty otherwise) — so the other agents' rewards are
+untouched by an illegal choice; and the episode ends only when all agents are done or the time is up -/
+theorem mmst_illegalIgnored_repaired (cfg : Cfg) (s : State) (hg : cfg.guardVisited = true)
+    (hF : Feasible cfg s) (hFr : FlagsFresh cfg s)
+    (hK : ∀ i, i < cfg.numAgents → (s.nodesToConnect.getD i []).length = cfg.numNodesPerAgent)
+    (action perm : List Nat) (hd : validDraw cfg.numAgents perm)
+    (hl : action.length = cfg.numAgents) (ha : ∀ i, i < cfg.numAgents → action.getD i 0 < cfg.numNodes) :
+    illegalIgnored cfg s action (step cfg s (action.map Int.ofNat) perm).1
+      (step cfg s (action.map Int.ofNat) perm).2 = true :=
+  MMST.illegalIgnored_repaired hg hF hFr hK action perm hd hl ha
+
+/-- … and the edge tables of the other agents do not depend on what an agent with an illegal action asked for:
+they are `update_active_edges` of the new positions, in which the offending agent has not moved -/
+theorem mmst_illegal_edges (cfg : Cfg) (s : State) (action : List Int) (perm : List Nat) :
+    (step cfg s action perm).1.nodeEdges =
+      updateActiveEdges cfg.numAgents s.nodeEdges (step cfg s action perm).1.positions s.nodeTypes :=
+  MMST.step_nodeEdges cfg s action perm
+
+example : MMSTEx.cfgG.guardVisited = true ∧ Feasible MMSTEx.cfgG MMSTEx.stB ∧ FlagsFresh MMSTEx.cfgG MMSTEx.stB ∧
+    validDraw MMSTEx.cfgG.numAgents [0, 1] ∧ ¬ legal MMSTEx.cfgG MMSTEx.stB 1 0 := by decide +kernel
 
 /-- the episode is not ended by an illegal action: LAST only when all agents are done or the time is up -/
 theorem mmst_last_only_documented (cfg : Cfg) (s : State) (a : List Int) (p : List Nat) :
@@ -252,6 +325,84 @@ theorem mmst_step_complete_is_solution (cfg : Cfg) (s : State) (hF : Feasible cf
     (hlast : (step cfg s action perm).2.stepType = .last) (ht : s.stepCount + 1 < (cfg.timeLimit : Int)) :
     IsSolution cfg (step cfg s action perm).1 := MMST.step_complete_is_solution hF action perm hK hlast ht
 
+/-! #### audit r1 entry 1: routes are walks (`Feasible' = Feasible ∧ RouteWalk`) -/
+
+/-- the old `Feasible` / `IsSolution` do not say that a route is a walk: on the path graph 0-1-2-3-4 the routes
+`[0,4]` and `[1,3]` (no such edges) pass them; the strengthened predicates reject the state -/
+theorem mmst_feasible_not_walk_witness :
+    Feasible MMSTEx.cfg MMSTEx.stJump ∧ FlagsFresh MMSTEx.cfg MMSTEx.stJump ∧ IsSolution MMSTEx.cfg MMSTEx.stJump ∧
+    ¬ hasEdge MMSTEx.stJump 0 4 ∧ ¬ hasEdge MMSTEx.stJump 1 3 ∧
+    ¬ Feasible' MMSTEx.cfg MMSTEx.stJump ∧ ¬ IsSolution' MMSTEx.cfg MMSTEx.stJump := by decide +kernel
+
+/-- `Feasible'` (hard constraint, bookkeeping, and `RouteWalk`: the route row of every agent has `time_limit`
+entries, the filled prefix has length `position_index + 1 ≤ step_count + 1`, consecutive entries are joined by an edge
+of the adjacency matrix, the last one is the agent's position) is preserved by EVERY step taken before the time
+limit (the step that reaches it included): any joint action, any draw, any configuration -/
+theorem mmst_step_feasible' (cfg : Cfg) (s : State) (h : Feasible' cfg s) (ht : s.stepCount < (cfg.timeLimit : Int))
+    (action : List Int) (perm : List Nat) : Feasible' cfg (step cfg s action perm).1 :=
+  MMST.step_feasible' h ht action perm
+
+/-- … and along every run that stays within the time limit -/
+theorem mmst_feasible_along' (cfg : Cfg) (s : State) (h : Feasible' cfg s) (steps : List (List Int × List Nat))
+    (hlen : s.stepCount + (steps.length : Int) ≤ (cfg.timeLimit : Int)) :
+    ∀ s' ∈ statesAlong cfg s steps, Feasible' cfg s' := MMST.feasible_along' steps h hlen
+
+/-- reset: a state with the configured shapes satisfying the generator certificates, whose route rows have
+`time_limit ≥ 1` entries (`max_step = time_limit`), is `Feasible'` -/
+theorem mmst_reset_feasible' (cfg : Cfg) (s : State) (hS : Shaped cfg s) (h1 : certStart cfg s = true)
+    (h2 : certTypes cfg s = true) (h3 : certEdgesAdj cfg s = true) (hT : 1 ≤ cfg.timeLimit)
+    (hL : ∀ i, i < cfg.numAgents → (s.connectedNodes.getD i []).length = cfg.timeLimit) : Feasible' cfg s :=
+  MMST.reset_feasible' hS h1 h2 h3 hT hL
+
+/-- the step that ends an episode before the time limit (ended by completion) leaves a strengthened solution … -/
+theorem mmst_step_complete_is_solution' (cfg : Cfg) (s : State) (hF : Feasible' cfg s) (action : List Int)
+    (perm : List Nat)
+    (hK : ∀ i, i < cfg.numAgents → (s.nodesToConnect.getD i []).length = cfg.numNodesPerAgent)
+    (hlast : (step cfg s action perm).2.stepType = .last) (ht : s.stepCount + 1 < (cfg.timeLimit : Int)) :
+    IsSolution' cfg (step cfg s action perm).1 := MMST.step_complete_is_solution' hF action perm hK hlast ht
+
+/-- … and a strengthened solution is what the environment's goal says: all nodes to connect of agent `i` are
+reachable from each other by graph edges INSIDE its own route (`ReachIn s (onRoute s i)`: every node of the path,
+end points included, is on the route of `i`), and the routes of two different agents share no utility node -/
+theorem mmst_solution_connects (cfg : Cfg) (s : State) (h : IsSolution' cfg s) :
+    (∀ i, i < cfg.numAgents → ∀ u v : Nat, (u : Int) ∈ s.nodesToConnect.getD i [] →
+        (v : Int) ∈ s.nodesToConnect.getD i [] → ReachIn s (onRoute s i) u v) ∧
+    (∀ i j, i < cfg.numAgents → j < cfg.numAgents → i ≠ j → ∀ v, isUtility s v →
+        ¬ (onRoute s i v ∧ onRoute s j v)) := MMST.solution_connects h
+
+/-- both together: when the episode ends by completion every agent's nodes to connect are pairwise connected
+inside its own route and no utility node is on two routes -/
+theorem mmst_step_complete_connects (cfg : Cfg) (s : State) (hF : Feasible' cfg s) (action : List Int)
+    (perm : List Nat)
+    (hK : ∀ i, i < cfg.numAgents → (s.nodesToConnect.getD i []).length = cfg.numNodesPerAgent)
+    (hlast : (step cfg s action perm).2.stepType = .last) (ht : s.stepCount + 1 < (cfg.timeLimit : Int)) :
+    let s' := (step cfg s action perm).1
+    (∀ i, i < cfg.numAgents → ∀ u v : Nat, (u : Int) ∈ s'.nodesToConnect.getD i [] →
+        (v : Int) ∈ s'.nodesToConnect.getD i [] → ReachIn s' (onRoute s' i) u v) ∧
+    (∀ i j, i < cfg.numAgents → j < cfg.numAgents → i ≠ j → ∀ v, isUtility s' v →
+        ¬ (onRoute s' i v ∧ onRoute s' j v)) :=
+  MMST.solution_connects (MMST.step_complete_is_solution' hF action perm hK hlast ht)
+
+/-- any two nodes of a route are connected inside the route (not only the nodes to connect) -/
+theorem mmst_route_connected (cfg : Cfg) (s : State) (h : Feasible' cfg s) (i : Nat)
+    (hi : i < cfg.numAgents) (u v : Nat) (hu : onRoute s i u) (hv : onRoute s i v) : ReachIn s (onRoute s i) u v :=
+  MMST.route_connected h.2 hi hu hv
+
+/-- the start state of the example is `Feasible'`, so are its successors; the two-step… one-step episode that ends
+by completion leaves a strengthened solution; a state at the time limit in which agent 1 moved in every step
+(`position_index = time_limit`, last write dropped) is still `Feasible'` -/
+example : Feasible' MMSTEx.cfg MMSTEx.st ∧ Feasible' MMSTEx.cfg MMSTEx.st1 ∧
+    (∀ i, i < MMSTEx.cfg.numAgents → (MMSTEx.st.connectedNodes.getD i []).length = MMSTEx.cfg.timeLimit) ∧
+    (step MMSTEx.cfgG MMSTEx.st [1, 4] [0, 1]).2.stepType = .last ∧
+    IsSolution' MMSTEx.cfgG (step MMSTEx.cfgG MMSTEx.st [1, 4] [0, 1]).1 := by decide +kernel
+example :
+    (let cfg2 : Cfg := { MMSTEx.cfgR with timeLimit := 2 }
+     let s0 : State := { MMSTEx.st with connectedNodes := [[0, -1], [3, -1]], nodesToConnect := [[0, 1], [3, 0]],
+                                         nodeTypes := [0, 0, -1, 1, -1] }
+     let s2 := (step cfg2 (step cfg2 s0 [0, 2] [0, 1]).1 [0, 1] [0, 1]).1
+     Feasible' cfg2 s0 ∧ s2.positionIndex = [0, 2] ∧ s2.connectedNodes = [[0, -1], [3, 2]] ∧ s2.positions = [0, 1] ∧
+     Feasible' cfg2 s2) := by decide +kernel
+
 /-- the start state of the example satisfies the certificates -/
 example : Shaped MMSTEx.cfg MMSTEx.st ∧ certStart MMSTEx.cfg MMSTEx.st = true ∧ certTypes MMSTEx.cfg MMSTEx.st = true ∧
     certEdgesAdj MMSTEx.cfg MMSTEx.st = true := by decide +kernel
@@ -293,14 +444,150 @@ theorem mmst_relabel_length (cfg : Cfg) (s : State) (hS : Shaped cfg s) :
   show (obsNodeTypes cfg.numAgents s.nodeTypes s.connectedIndex).length = _
   rw [MMST.obsNodeTypes_length hS]; simp [observe]
 
-/-- all other observation fields are copies of the state's fields in both -/
-theorem mmst_obs_copied (cfg : Cfg) (s : State) :
-    (observeL1 cfg s).adj = (observe cfg s).adj ∧ (observeL1 cfg s).positions = (observe cfg s).positions ∧
-    (observeL1 cfg s).stepCount = (observe cfg s).stepCount ∧ (observeL1 cfg s).actionMask = (observe cfg s).actionMask :=
-  ⟨rfl, rfl, rfl, rfl⟩
+/-- audit r1 entry 14: the L2 observation `observe` carries the mask the RULES prescribe (`legalMask`, recomputed from
+`legal`) and the documented labels; the environment's observation function `_state_to_observation` (cached mask,
+relabelling arithmetic) yields exactly it on every state whose arrays are in shape, whose edge tables and finished
+flags are up to date, whose node types are in range and whose cached mask is the mask function of its arrays -/
+theorem mmst_obs_eq (cfg : Cfg) (s : State) (hS : Shaped cfg s) (hE : EdgesOK cfg s) (hF : FlagsFresh cfg s)
+    (hT : ∀ t ∈ s.nodeTypes, -1 ≤ t ∧ t < (cfg.numAgents : Int))
+    (hM : s.actionMask = makeMask cfg.numAgents s.nodeEdges s.positions s.finished) :
+    observeL1 cfg s = observe cfg s := MMST.obs_eq hS hE hF hT hM
 
-example : (observe MMSTEx.cfg MMSTEx.st1).nodeTypes = [0, 0, 2, 2, 3] ∧ observeL1 MMSTEx.cfg MMSTEx.st1 = observe MMSTEx.cfg MMSTEx.st1 := by
+/-- … hence the observation returned by EVERY step from a feasible state, in the repaired configuration
+(`freshMask`), is the documented observation of the successor: any joint action, any draw -/
+theorem mmst_step_obs_eq (cfg : Cfg) (s : State) (hc : cfg.freshMask = true) (hF : Feasible cfg s)
+    (hK : ∀ i, i < cfg.numAgents → (s.nodesToConnect.getD i []).length = cfg.numNodesPerAgent)
+    (hT : ∀ t ∈ s.nodeTypes, -1 ≤ t ∧ t < (cfg.numAgents : Int)) (action : List Int) (perm : List Nat) :
+    (step cfg s action perm).2.obs = observe cfg (step cfg s action perm).1 :=
+  MMST.step_obs_eq hc hF hK hT action perm
+
+/-- gap C12, reset (`reset cfg s = (s, restart(_state_to_observation(s)))` for the state `s` the generator returns):
+a FIRST timestep, reward 0, discount 1, whose observation is the documented observation of the generated state
+(generator certificates; at least two nodes per agent) -/
+theorem mmst_reset_obs (cfg : Cfg) (s : State) (hS : Shaped cfg s) (h1 : certStart cfg s = true)
+    (h2 : certTypes cfg s = true) (h3 : certEdgesAdj cfg s = true) (h4 : certAgentsDisjoint cfg s = true)
+    (hK : 2 ≤ cfg.numNodesPerAgent) :
+    (reset cfg s).1 = s ∧ (reset cfg s).2.stepType = .first ∧ (reset cfg s).2.reward = [0] ∧
+    (reset cfg s).2.discount = [1] ∧ (reset cfg s).2.obs = observe cfg s := MMST.reset_obs hS h1 h2 h3 h4 hK
+
+/-- pinned configuration (stale finished flags in the cached mask): the observation returned by the step in which
+agent 0 finishes is NOT the documented one — its mask row offers node 0 and node 2 to the finished agent -/
+theorem mmst_obs_stale_mask_witness :
+    (step MMSTEx.cfg MMSTEx.st [1, 2] [0, 1]).2.stepType = .mid ∧
+    (step MMSTEx.cfg MMSTEx.st [1, 2] [0, 1]).2.obs ≠ observe MMSTEx.cfg MMSTEx.st1 ∧
+    (step MMSTEx.cfg MMSTEx.st [1, 2] [0, 1]).2.obs.actionMask.getD 0 [] = [true, false, false, false, false] ∧
+    (observe MMSTEx.cfg MMSTEx.st1).actionMask.getD 0 [] = [false, false, false, false, false] := by decide +kernel
+
+/-- the same step in the repaired configuration; the reset state of the example -/
+example : (observe MMSTEx.cfgR (step MMSTEx.cfgR MMSTEx.st [1, 2] [0, 1]).1).nodeTypes = [0, 0, 2, 2, 3] ∧
+    (step MMSTEx.cfgR MMSTEx.st [1, 2] [0, 1]).2.obs = observe MMSTEx.cfgR (step MMSTEx.cfgR MMSTEx.st [1, 2] [0, 1]).1 ∧
+    (reset MMSTEx.cfgR MMSTEx.st).2.obs = observe MMSTEx.cfgR MMSTEx.st ∧
+    certAgentsDisjoint MMSTEx.cfgR MMSTEx.st = true := by
   decide +kernel
+end Props.C12
+
+namespace Props.C10
+/-- gap C10 (a): the generator certificates `certOwnBlock` (every node to connect of agent `k` lies in block `k` of
+`np.array_split(arange N, A)`) and `certBlocksConnected` (every block induces a connected subgraph) make the
+instance solvable: for every agent the block `blockOf N A k` is a connected subgraph (any two of its nodes are joined
+by a path that stays inside it) containing all its nodes to connect, and the blocks of different agents are
+node-disjoint — so node-disjoint trees connecting every agent's nodes exist (a spanning tree of each block) -/
+theorem mmst_cert_solvable (cfg : Cfg) (s : State) (h1 : certOwnBlock cfg s = true)
+    (h2 : certBlocksConnected cfg s = true) :
+    (∀ k, k < cfg.numAgents →
+        (∀ v : Nat, (v : Int) ∈ s.nodesToConnect.getD k [] → v ∈ blockOf cfg.numNodes cfg.numAgents k) ∧
+        (∀ u ∈ blockOf cfg.numNodes cfg.numAgents k, ∀ v ∈ blockOf cfg.numNodes cfg.numAgents k,
+            ReachIn s (· ∈ blockOf cfg.numNodes cfg.numAgents k) u v)) ∧
+    (∀ j k, j ≠ k → ∀ v, v ∈ blockOf cfg.numNodes cfg.numAgents j → v ∉ blockOf cfg.numNodes cfg.numAgents k) :=
+  MMST.cert_solvable h1 h2
+
+/-- … in particular any two nodes to connect of an agent are joined by a path inside the agent's own block -/
+theorem mmst_cert_solvable_pairs (cfg : Cfg) (s : State) (h1 : certOwnBlock cfg s = true)
+    (h2 : certBlocksConnected cfg s = true) (k : Nat) (hk : k < cfg.numAgents) (u v : Nat)
+    (hu : (u : Int) ∈ s.nodesToConnect.getD k []) (hv : (v : Int) ∈ s.nodesToConnect.getD k []) :
+    ReachIn s (· ∈ blockOf cfg.numNodes cfg.numAgents k) u v := MMST.cert_solvable_pairs h1 h2 k hk u v hu hv
+
+/-- the blocks of `np.array_split` are pairwise disjoint sets of node indices (all N, A) -/
+theorem mmst_blocks_disjoint (N A j k : Nat) (hjk : j ≠ k) : ∀ v, v ∈ blockOf N A j → v ∉ blockOf N A k :=
+  MMST.blockOf_disjoint N A j k hjk
+theorem mmst_blocks_in_range (N A k : Nat) (hk : k < A) : ∀ v ∈ blockOf N A k, v < N := MMST.blockOf_lt N A k hk
+
+/-- `certGraphConnected`: any two nodes of the graph are joined by a path -/
+theorem mmst_cert_graph_connected (cfg : Cfg) (s : State) (h : certGraphConnected cfg s = true) :
+    ∀ u, u < cfg.numNodes → ∀ v, v < cfg.numNodes → ReachIn s (· < cfg.numNodes) u v := MMST.graphConnected_reach h
+
+/-- `certSymmetric`: the graph is undirected (`Linked` = `hasEdge`) -/
+theorem mmst_cert_symmetric (cfg : Cfg) (s : State) (h : certSymmetric cfg s = true) (u v : Nat)
+    (hu : u < cfg.numNodes) (hv : v < cfg.numNodes) : hasEdge s u v ↔ hasEdge s v u := MMST.cert_symmetric h hu hv
+
+/-- `certLoopless`: a legal move always changes the agent's node -/
+theorem mmst_cert_loopless_legal (cfg : Cfg) (s : State) (hS : Shaped cfg s) (h : certLoopless cfg s = true)
+    (i a : Nat) (hl : legal cfg s i a) : (a : Int) ≠ s.positions.getD i 0 := MMST.cert_loopless_legal hS h hl
+
+/-- `certDegree bound` (with the 0/1 certificate): no agent ever has more than `bound` legal moves.  (On the
+pinned tree the certificate holds with `bound = max_degree + 1`, not `max_degree`: known finding MM3.) -/
+theorem mmst_cert_degree_legal_count (cfg : Cfg) (s : State) (hS : Shaped cfg s) (hb : certBinary s = true)
+    (bound : Nat) (h : certDegree cfg s bound = true) (i : Nat) (hi : i < cfg.numAgents) :
+    ((List.range cfg.numNodes).filter (fun a => decide (legal cfg s i a))).length ≤ bound :=
+  MMST.cert_degree_legal_count hS hb h hi
+
+example : certOwnBlock MMSTEx.cfg MMSTEx.st = true ∧ certBlocksConnected MMSTEx.cfg MMSTEx.st = true ∧
+    certGraphConnected MMSTEx.cfg MMSTEx.st = true ∧ certSymmetric MMSTEx.cfg MMSTEx.st = true ∧
+    certLoopless MMSTEx.cfg MMSTEx.st = true ∧ certBinary MMSTEx.st = true ∧
+    certDegree MMSTEx.cfg MMSTEx.st 2 = true ∧ blockOf 5 2 0 = [0, 1, 2] ∧ blockOf 5 2 1 = [3, 4] := by decide +kernel
+
+/-! #### gap C10 (b): `SplitRandomGenerator.__call__` transliterated (`generate`, Env/MMST/GenModel.lean)
+
+The graph handed over by `_generate_graph` is a parameter constrained by `graphOK` (the edge table is the adjacency
+matrix written with node values); `multi_random_walk` itself is not transliterated (its certificates `certSymmetric`,
+`certLoopless`, `certDegree`, `certBlocksConnected`, `certGraphConnected` are evaluated on every implementation reset
+state by `mmst.instance`; MM3/MM4 of known_findings.json are violations of two of them).  The per-agent
+`choice(block, [K], replace=False)` is the draw `comps`. -/
+
+/-- for EVERY valid draw and every `graphOK` graph the generated state has the configured shapes and satisfies
+`certStart`, `certTypes`, `certEdgesAdj`, `certAgentsDisjoint`, `certOwnBlock`, and its route rows have
+`time_limit` entries -/
+theorem mmst_generate_certs (cfg : Cfg) (d : GenDraw) (hv : validGenDraw cfg d) (hg : graphOK cfg d)
+    (hK : 1 ≤ cfg.numNodesPerAgent) (hT : 1 ≤ cfg.timeLimit) :
+    Shaped cfg (generate cfg d) ∧ certStart cfg (generate cfg d) = true ∧ certTypes cfg (generate cfg d) = true ∧
+    certEdgesAdj cfg (generate cfg d) = true ∧ certAgentsDisjoint cfg (generate cfg d) = true ∧
+    certOwnBlock cfg (generate cfg d) = true ∧
+    (∀ k, k < cfg.numAgents → ((generate cfg d).connectedNodes.getD k []).length = cfg.timeLimit) :=
+  MMST.generate_certs hv hg hK hT
+
+/-- … hence every generated state is `Feasible'`, and with K ≥ 2 its flags are fresh -/
+theorem mmst_generate_feasible' (cfg : Cfg) (d : GenDraw) (hv : validGenDraw cfg d) (hg : graphOK cfg d)
+    (hK : 1 ≤ cfg.numNodesPerAgent) (hT : 1 ≤ cfg.timeLimit) : Feasible' cfg (generate cfg d) :=
+  MMST.generate_feasible' hv hg hK hT
+theorem mmst_generate_flagsFresh (cfg : Cfg) (d : GenDraw) (hv : validGenDraw cfg d) (hg : graphOK cfg d)
+    (hK : 2 ≤ cfg.numNodesPerAgent) (hT : 1 ≤ cfg.timeLimit) : FlagsFresh cfg (generate cfg d) :=
+  MMST.generate_flagsFresh hv hg hK hT
+
+/-- the draws can be read back off the generated state: the driver's `generator_replay` certificate
+(`generate cfg (drawOf s) = s` on implementation reset states) loses nothing -/
+theorem mmst_generate_drawOf (cfg : Cfg) (d : GenDraw) (hv : validGenDraw cfg d) (hK : 1 ≤ cfg.numNodesPerAgent)
+    (hA : 1 ≤ cfg.numAgents) : drawOf (generate cfg d) = d := MMST.generate_drawOf' hv hK hA
+
+/-- the running example IS a generated state -/
+example : validGenDraw MMSTEx.cfg MMSTEx.draw ∧ graphOK MMSTEx.cfg MMSTEx.draw ∧
+    generate MMSTEx.cfg MMSTEx.draw = MMSTEx.st ∧ drawOf MMSTEx.st = MMSTEx.draw := by decide +kernel
+
+/-- with one node per agent (accepted by the generator) the flags of a generated state are not fresh:
+see `Props.C04.mmst_reset_flagsFresh_k1_witness` -/
+theorem mmst_generate_flagsFresh_k1_witness :
+    validGenDraw MMSTEx.cfgK1 { MMSTEx.draw with comps := [[0], [3]] } ∧
+    graphOK MMSTEx.cfgK1 { MMSTEx.draw with comps := [[0], [3]] } ∧
+    generate MMSTEx.cfgK1 { MMSTEx.draw with comps := [[0], [3]] } = MMSTEx.stK1 ∧
+    ¬ FlagsFresh MMSTEx.cfgK1 MMSTEx.stK1 := by decide +kernel
+end Props.C10
+
+namespace Props.C12
+/-- gap C12 on the transliterated generator: `reset` of every generated state (valid draws, K ≥ 2) is a FIRST
+timestep carrying the documented observation -/
+theorem mmst_generate_reset_obs (cfg : Cfg) (d : GenDraw) (hv : validGenDraw cfg d) (hg : graphOK cfg d)
+    (hK : 2 ≤ cfg.numNodesPerAgent) (hT : 1 ≤ cfg.timeLimit) :
+    (reset cfg (generate cfg d)).2.stepType = .first ∧
+    (reset cfg (generate cfg d)).2.obs = observe cfg (generate cfg d) := MMST.generate_reset_obs hv hg hK hT
 end Props.C12
 
 namespace Props.C01
